@@ -585,11 +585,41 @@ import sim as SIM
 
 
 class TSock(SIM.FakeSock):
-    """FakeSock that also records, per conversation, the order of data and close events"""
-    def __init__(self, name, conv):
+    """FakeSock that also records, per conversation, the order of data and close events.
+    With a `world` it behaves more like a kernel socket:
+      * its descriptor NUMBER comes from the world's allocator (lowest free number, freed again by close()), so numbers
+        are recycled exactly as a kernel recycles them;
+      * close() makes the (fake) kernel epoll forget it, the python-level selector key stays behind (as in reality);
+      * a socket left in blocking / timeout mode (new_socket_connection leaves its sockets in settimeout() mode) that is
+        asked to send again without a new write-readiness report, or when its script says would-block, BLOCKS: a
+        'blocked' event is recorded and TimeoutError raised, as the real socket would after its timeout;
+      * `never_writable`: the peer does not read: never reported writable, send() would block."""
+    def __init__(self, name, conv, world=None, timeout_mode=False):
         super().__init__(name)
         self.conv = conv
         self.on_send = None
+        self.world = world
+        self.timeout_mode = timeout_mode       # True: blocking with a timeout (not non-blocking)
+        self.blocking = True
+        self.grants = 0                        # sends allowed before the next readiness report
+        self.never_writable = False
+        if world is not None:
+            self.fd = world.alloc_fd(self)
+
+    def setblocking(self, b):
+        self.blocking = bool(b)
+        self.timeout_mode = False if not b else self.timeout_mode
+
+    def settimeout(self, t):
+        if t is None:
+            self.blocking, self.timeout_mode = True, False
+        elif t == 0:
+            self.blocking, self.timeout_mode = False, False
+        else:
+            self.blocking, self.timeout_mode = True, True
+
+    def would_block_forever(self):
+        return self.never_writable and not self.send_script
 
     def recv(self, n):
         try:
@@ -603,6 +633,17 @@ class TSock(SIM.FakeSock):
         return data
 
     def send(self, data):
+        if self.world is not None and not self.closed:
+            stuck = self.would_block_forever()
+            if self.blocking and (self.grants <= 0 or stuck):
+                # a blocking send that the kernel cannot satisfy now: the executor thread sleeps in send()
+                self.conv['events'].append([self.name, 'blocked', len(bytes(data))])
+                self.world.blocked.append('%s.%s' % (self.conv.get('name'), self.name))
+                raise TimeoutError(errno.ETIMEDOUT, 'timed out (the call blocked the executor)')
+            self.grants -= 1
+            if self.would_block_forever():
+                self.conv['events'].append([self.name, 'send_err', 'BlockingIOError'])
+                raise BlockingIOError(errno.EAGAIN, 'would block')
         try:
             k = super().send(data)
         except BlockingIOError:
@@ -618,6 +659,8 @@ class TSock(SIM.FakeSock):
     def close(self):
         if not self.closed:
             self.conv['events'].append([self.name, 'close'])
+            if self.world is not None:
+                self.world.free_fd(self)
         super().close()
 
     def shutdown(self, how):
@@ -651,10 +694,59 @@ class HttpWorld:
         self.idle = 0
         self.by_fd = {}
         self.by_host = {}
+        self.blocked = []            # blocking socket calls made inside the worker loop
+        self.stalled = None          # the worker did not come back from a call
+        self.fd_base = 20
 
     # ---- fake kernel
     def cur_kfail(self):
         return ()
+
+    def alloc_fd(self, sock):
+        """lowest free descriptor number, like the kernel"""
+        n = self.fd_base
+        while n in self.by_fd:
+            n += 1
+        self.by_fd[n] = sock
+        return n
+
+    def free_fd(self, sock):
+        if self.by_fd.get(sock.fd) is sock:
+            del self.by_fd[sock.fd]
+        # the kernel's epoll forgets a closed descriptor; the python-level selector key stays behind
+        try:
+            self.ex.selector._selector.reg.pop(sock.fd, None)
+        except AttributeError:
+            pass
+
+    def temp_selector(self):
+        """selectors.DefaultSelector() created by handler code itself (e.g. a flush with a private selector)"""
+        world = self
+        class _Drv:
+            polls = 0
+            def cur_kfail(self):
+                return ()
+            def on_select(self):
+                out = []
+                for fd, ev in list(sel._selector.reg.items()):
+                    s = world.by_fd.get(fd)
+                    if s is None or s.closed:
+                        continue
+                    m = 0
+                    if ev & select.EPOLLIN and s.readable():
+                        m |= select.EPOLLIN
+                    if ev & select.EPOLLOUT and not s.would_block_forever():
+                        m |= select.EPOLLOUT
+                        s.grants = 1
+                    if m:
+                        out.append((fd, m))
+                self.polls = 0 if out else self.polls + 1
+                if self.polls > 300:
+                    world.stalled = 'a handler call made on the worker loop keeps waiting on its own selector (no other connection is served meanwhile)'
+                    raise EndOfSchedule()
+                return out
+        sel = FakeSelector(_Drv())
+        return sel
 
     def on_select(self):
         ex = self.ex
@@ -662,11 +754,11 @@ class HttpWorld:
         # arrivals
         for c in self.convs:
             if c['state'] == 'waiting' and c['arrive'] <= self.k:
-                sock = TSock('client', c)
+                sock = TSock('client', c, world=self)
+                sock.never_writable = bool(c.get('client_never_reads'))
                 c['client_sock'] = sock
                 for x in c.get('client_send', []):
                     sock.script_send(_io_item(x) if isinstance(x, str) else x)
-                self.by_fd[sock.fd] = sock
                 c['state'] = 'live'
                 c['feed'] = list(c.get('client', []))
                 ex.work_queue.put((sock, ('10.1.1.%d' % (len(self.by_fd) % 250), 40000)))
@@ -685,8 +777,9 @@ class HttpWorld:
             m = 0
             if ev & select.EPOLLIN and s.readable():
                 m |= select.EPOLLIN
-            if ev & select.EPOLLOUT:
+            if ev & select.EPOLLOUT and not s.would_block_forever():
                 m |= select.EPOLLOUT
+                s.grants = 1
             if m:
                 out.append((fd, m))
         if out or progressed or any(c['state'] == 'waiting' for c in self.convs):
@@ -710,7 +803,8 @@ class HttpWorld:
         if spec.get('connect'):
             c['connect_failures'] += 1
             raise SIM.io_error(spec['connect'])
-        s = TSock('up%d' % n, c)
+        s = TSock('up%d' % n, c, world=self, timeout_mode=True)      # new_socket_connection: settimeout(timeout)
+        s.never_writable = bool(spec.get('never_reads'))
         for x in spec.get('send', []):
             s.script_send(_io_item(x) if isinstance(x, str) else x)
         resp = [_io_item(x) for x in spec.get('respond', [])]
@@ -723,7 +817,6 @@ class HttpWorld:
         if trigger == b'' and resp:
             s.feed(*resp); del resp[:]
         c['upstream_socks'].append(s)
-        self.by_fd[s.fd] = s
         return s
 
     def run(self):
@@ -751,6 +844,10 @@ class HttpWorld:
                     p = mock.patch(target, self.connect); p.start(); patches.append(p)
                 except (AttributeError, ModuleNotFoundError):
                     pass
+            import selectors as _selectors
+            shim = types.SimpleNamespace(**{k: getattr(_selectors, k) for k in dir(_selectors) if not k.startswith('__')})
+            shim.DefaultSelector = self.temp_selector          # selectors created by handler code see the fake kernel too
+            p = mock.patch('proxy.http.handler.selectors', shim); p.start(); patches.append(p)
             ex = LocalFdExecutor(iid='1', work_queue=NonBlockingQueue(), flags=flags)
             if self.asfound:
                 old = asfound_threadless()
@@ -800,7 +897,7 @@ class HttpWorld:
                 events=c['events'],
                 unfed=len(c.get('feed', [])) if cs else None,
             )
-        return dict(status=status, iterations=self.k, leftover=leftover, convs=res)
+        return dict(status=status, iterations=self.k, leftover=leftover, convs=res, stalled=self.stalled, blocked=self.blocked)
 
 
 _HTTP_FLAGS = {}
